@@ -73,6 +73,10 @@ TCbWrite == /\ HasLine("cbw")
             /\ CbWrite(L.i, L.c, L.v)
             /\ Consume
 
+TCbCopy == /\ HasLine("cbcopy")
+           /\ CopyBusy(L.i, L.c, L.j)
+           /\ Consume
+
 TNCall == /\ HasLine("ncall")
           /\ NestedSend(L.i, L.c, L.ev)
           /\ Consume
@@ -156,7 +160,7 @@ TSilent == /\ sil < SilentBound
            /\ n' = n + 1
            /\ UNCHANGED <<tid, l>>
 
-TraceNext == TNew \/ TCall \/ TBegin \/ TEnd \/ TCbWrite \/ TNCall \/ TNRet \/ TXCall \/ TXRet \/ TRet \/ TClass \/ TProbe \/ TSilent
+TraceNext == TNew \/ TCall \/ TBegin \/ TEnd \/ TCbWrite \/ TCbCopy \/ TNCall \/ TNRet \/ TXCall \/ TXRet \/ TRet \/ TClass \/ TProbe \/ TSilent
 TraceSpec == TraceInit /\ [][TraceNext]_tvars
 
 (***************************************************************************)
